@@ -236,7 +236,8 @@ def sweep(ctx, max_calls):
         for attr in sorted(a for a in dir(obj) if (not a.startswith('_') or a in DUNDERS) and a not in SKIP):
             calls.append((tname, attr))
     if len(calls) > max_calls:
-        calls = ctx.rng.sample(calls, max_calls)
+        must = [c for c in calls if c[1].endswith('_go')]          # conversions to grow-only containers are always exercised (their results are grown below)
+        calls = must + ctx.rng.sample([c for c in calls if c not in must], max(0, max_calls - len(must)))
     table_cache = arg_table(fx, None)
     for tname, attr in calls:
         obj = fx[tname]
@@ -280,6 +281,24 @@ def sweep(ctx, max_calls):
                         outcome = 'raised'
         except Exception:
             outcome = 'raised'
+        # every grow-only container handed out by the call is GROWN (a column / a label appended): containers derived from a
+        # static one - in either direction - must not share anything that growth changes
+        grown = 0
+        for r in _flatten_results(results):
+            try:
+                if isinstance(r, sf.FrameGO):
+                    r['__grown__%d' % grown] = np.zeros(len(r.index), dtype=np.int64) if r.columns.depth == 1 else None
+                    grown += 1
+                elif isinstance(r, sf.IndexHierarchyGO):
+                    r.append(tuple('__g%d' % d for d in range(r.depth)))
+                    grown += 1
+                elif isinstance(r, sf.IndexGO) and r.__class__ is sf.IndexGO:
+                    r.append('__grown__%d' % grown)
+                    grown += 1
+            except Exception:
+                pass
+        if grown:
+            ctx.count('V_results_grown', grown)
         arrays = []
         for r in results:
             arrays += reachable_arrays(r)
@@ -295,6 +314,14 @@ def sweep(ctx, max_calls):
         ctx.count('V_calls')
         ctx.count('V_arrays_probed', len(flags))
     return events
+
+
+def _flatten_results(results, depth=0):
+    for r in results:
+        if isinstance(r, (list, tuple)) and depth < 2:
+            yield from _flatten_results(list(r)[:4], depth + 1)
+        else:
+            yield r
 
 
 def _routes_1d(a, kind):
